@@ -9,6 +9,7 @@ pub mod c07;
 pub mod c08;
 pub mod c10;
 pub mod c11;
+pub mod c14;
 pub mod c19;
 
 #[derive(Clone, Copy, PartialEq, Debug)]
@@ -33,7 +34,7 @@ pub struct PropDef {
 }
 
 pub fn all() -> Vec<PropDef> {
-    vec![c02::def(), c03::def(), c06::def(), c07::def(), c08::def(), c10::def(), c11::def(), c19::def()]
+    vec![c02::def(), c03::def(), c06::def(), c07::def(), c08::def(), c10::def(), c11::def(), c14::def(), c19::def()]
 }
 
 pub fn find(id: &str) -> Option<PropDef> {
